@@ -4,7 +4,7 @@ import os
 
 VERIF = os.path.dirname(os.path.dirname(os.path.abspath(__file__)))
 
-HOOK_COMMITS = []
+HOOK_COMMITS = ["8bcfe8c"]
 
 CHECKS = {
     "C01": dict(
@@ -157,6 +157,32 @@ CHECKS = {
              "blocks at least as long as the predictor history, block size only shrinks (the property's own preconditions).",
         technique="TLA+ model checking + simulation (TLC) of an encoder/decoder pair; exported behaviours replayed as real files",
         design="6 C13"),
+    "C09": dict(
+        text="Pipeline.tla: per utterance read -> excluded, or pre-processors in order -> computer / raw column -> post-processors in "
+             "order -> written once under its own id; TLC checks stage order, that excluded utterances are never written and included "
+             "ones exactly once; the variant that ignores post-processors (pre-repair kaldi tool) is refuted (canary).  Binding: both "
+             "tools run for real with the guarded hooks on; the stage events of every utterance and the ids in the output are "
+             "validated by TLC (TracePipeline); stored matrices (kaldi archive, .pt files) compared at float32 precision with the "
+             "library pipeline executed by the harness; inline JSON / JSON file / YAML file; --seed (0 included) twice; several "
+             "computers (fbank, complex wrapping banks with odd frame length and padded DFT, kaldi shift, short integration), "
+             "channels, workers, raw column, wav / npy / pt / sph containers, too-short / stereo / wrong-rate utterances.",
+        note="For dither the expected noise is drawn the way the tool is specified to seed it (numpy global seed for the kaldi tool, "
+             "torch.manual_seed(seed + map position) for the torch tool).  A kaldi archive does not keep the column count of an empty matrix.",
+        technique="TLA+ model checking (TLC) of the per-utterance pipeline + trace validation of hook events + output comparison",
+        design="6 C09"),
+    "C10": dict(
+        text="FeatDir.tla: main loop steps (about to save / destination opened / written / manifest line), loader workers, buffer "
+             "flushes, SIGKILL, soft interrupt, restart; TLC explores every interleaving within bounds and checks the manifest lists "
+             "only complete files, lags by at most the utterance in flight, the resumed directory equals the uninterrupted one "
+             "(per-utterance seed), no recomputation, eventual completion; the pre-repair seed rule and flush rule are each refuted "
+             "(canaries).  Binding: fault injection at every hook point x utterance index x kill kind (hard before / in the middle of / "
+             "after the write, after the manifest line, at the end; KeyboardInterrupt), double crashes, 0 and 2 workers, dither with "
+             "a fixed seed (0 included); directory and manifest inspected after every process exit, resumed and compared byte for byte; "
+             "every run's hook events plus the on-disk observations validated by TLC against FeatDir (TraceFeatDir).",
+        note="A kill is injected at hook points (between statements) and inside the write by truncation; kills inside other library "
+             "calls are assumed equivalent to one of these.  4 utterances per experiment.",
+        technique="TLA+ model checking (TLC) of crash/restart interleavings + fault injection + batched trace validation",
+        design="6 C10"),
 }
 
 NOT_APPLICABLE = {
